@@ -209,3 +209,66 @@ Proof. vm_compute. reflexivity. Qed.
 Example ex_k_after_rejects_delivery_after_reconnect_close :
   k_after true [ESubCall; EFactory 0; ERecv 0 0; ECloseCall; ECloseRet true; EConn] = Some 5.
 Proof. vm_compute. reflexivity. Qed.
+
+(** * Connected first, read off the monitor *)
+
+Lemma mon_from_app {M} (mstep : M -> ev -> M) (bad : M -> bool) a : forall b i m,
+  mon_from mstep bad i m (a ++ b) = None ->
+  mon_from mstep bad (i + List.length a) (fold_left mstep a m) b = None.
+Proof.
+  induction a as [|x a IH]; intros b i m H; cbn in *.
+  - rewrite Nat.add_0_r. exact H.
+  - destruct (bad (mstep m x)); [discriminate|].
+    replace (i + S (List.length a)) with (S i + List.length a) by lia. apply IH. exact H.
+Qed.
+
+Definition starts_conn (l : list (list ev)) : Prop :=
+  match drop_empty l with [] => True | m :: _ => exists t, m = EConn :: t end.
+
+Lemma expected_starts_conn k a : starts_conn (expected k a).
+Proof.
+  unfold expected, starts_conn. destruct (a_init a && a_sub a); [|exact Logic.I].
+  destruct (a_items a) as [|[n| | |] r]; cbn; unfold drop_empty; cbn; eauto; exact Logic.I.
+Qed.
+
+(** events that neither deliver anything nor start / end a stream *)
+Definition quiet (e : ev) : bool :=
+  match e with
+  | EConn | EUpd _ _ _ | ESync | EFactory _ | EDisc | ESubRet _ => false
+  | _ => true
+  end.
+
+Lemma quiet_keeps rc sc m e :
+  quiet e = true ->
+  o_rest (order_step rc sc m e) = o_rest m /\ o_cur (order_step rc sc m e) = o_cur m.
+Proof. destruct e; cbn; intros H; try discriminate; auto. Qed.
+
+(** On every (re)connected stream the first notification handed to the
+    application is [Connected]. *)
+Theorem k_order_connected_first rc sc tr :
+  k_order rc sc tr = None ->
+  forall pre k mid e suf,
+    tr = pre ++ EFactory k :: mid ++ e :: suf ->
+    forallb quiet mid = true -> is_handler e = true -> e = EConn.
+Proof.
+  unfold k_order. intros H pre k mid e suf E Hq He. subst tr.
+  apply mon_from_app in H. cbn in H.
+  match type of H with mon_from _ _ _ ?m _ = None => set (m1 := m) in H end.
+  apply mon_from_app in H.
+  assert (G : o_cur (fold_left (order_step rc sc) mid m1) = [] /\
+              starts_conn (o_rest (fold_left (order_step rc sc) mid m1))).
+  { assert (G0 : o_cur m1 = [] /\ starts_conn (o_rest m1)).
+    { subst m1. cbn. split; [reflexivity|apply expected_starts_conn]. }
+    clearbody m1. clear H. revert m1 G0. induction mid as [|x mid IH]; intros m1 G0; [exact G0|].
+    cbn in Hq. apply andb_prop in Hq. destruct Hq as [Hx Hq]. cbn. apply IH; [exact Hq|].
+    destruct (quiet_keeps rc sc m1 x Hx) as [E1 E2]. rewrite E1, E2. exact G0. }
+  destruct G as [Gc Gr]. cbn in H.
+  set (m2 := fold_left (order_step rc sc) mid m1) in *.
+  destruct (o_bad (order_step rc sc m2 e)) eqn:Hb; [discriminate|].
+  unfold starts_conn in Gr.
+  destruct e; try discriminate; cbn in Hb; rewrite Gc in Hb;
+  destruct (drop_empty (o_rest m2)) as [|[|h t] r]; cbn in Hb; try discriminate;
+  try (destruct Gr as [t' Gr]; discriminate);
+  destruct Gr as [t' Gr]; injection Gr as -> _; try reflexivity;
+  apply negb_false_iff in Hb; apply internal_ev_dec_bl in Hb; congruence.
+Qed.
